@@ -103,7 +103,7 @@ def read_all(TFI, path, enc, prefix):
 
 
 def shards(tier):
-    return [('seq', i, NSHARDS) for i in range(NSHARDS)] + [('rules', i, NSHARDS) for i in range(NSHARDS)] + [('junk', 0, 1)]
+    return [('seq', i, NSHARDS) for i in range(NSHARDS)] + [('rules', i, NSHARDS) for i in range(NSHARDS)] + [('junk', 0, 1), ('cli', 0, 1)]
 
 
 def bounds(tier):
@@ -271,7 +271,62 @@ def run_junk(tier, acc):
     tree.rmtree(wd)
 
 
+def run_cli_layer(tier, acc):
+    """The trainer command line itself: trainer.main() with -t/-r/-e/--prefixcount/--coverage on plain, $HEX and count-prefixed files;
+    the rulesets must be byte-identical to each other and to the library-level training with the same options."""
+    from .. import session as S
+    td = tree.scratch_tree()
+    bases = [['password1', 'password1', 'letmein!', ' lead99'], ['\u043f\u0430\u0440\u043e\u043b\u044c', 'Pass word', 'Pass word', 'Pass word', '$HEX[41]x']]
+    for bi, seq in enumerate(bases):
+        enc = 'utf-8'
+        vs = list(variants(seq, enc))
+        picks = [vs[0]] + [v for v in vs if v[0].startswith('LF repeated hex=' + 'H')][:1] + [v for v in vs if v[0].startswith('LF prefixcount hex=' + 'p')][:1] \
+            + [v for v in vs if v[0].startswith('CRLF prefixcount hex=' + 'H')][:1]
+        ref = None
+        for name, data, prefix in picks:
+            tf = os.path.join(td, 'train.txt')
+            with open(tf, 'wb') as f:
+                f.write(data)
+            argv = ['-t', tf, '-r', 'cli', '-e', enc, '--coverage', '0.5', '--ngram', '3'] + (['--prefixcount'] if prefix else [])
+            import shutil
+            shutil.rmtree(os.path.join(td, 'Rules', 'cli'), ignore_errors=True)
+            r = S.run_cli(td, 'trainer', argv)
+            acc.evals += 1
+            acc.nontrivial += 1
+            case = {'layer': 'cli', 'base': seq, 'encoding': enc, 'variant': name, 'file_hex': data.hex()}
+            base_dir = os.path.join(td, 'Rules', 'cli')
+            if r.exc or not os.path.exists(os.path.join(base_dir, 'Grammar', 'grammar.txt')):
+                acc.fail(case, 'trainer.py %s did not produce a ruleset (%s)' % (' '.join(argv[2:]), (r.exc or '').strip().splitlines()[-1:] or r.stdout[-3:]), 'cli-train')
+                continue
+            t = P.tree_bytes(base_dir)
+            t['config.ini'] = b'\n'.join(l for l in t['config.ini'].split(b'\n') if not l.startswith(b'number_of_encoding_errors'))
+            if ref is None:
+                ref = (name, t)
+                # the library-level training with the same options
+                lt, _ = train_bytes_opts(td, data, enc, prefix, 'lib', coverage=0.5, ngram=3)
+                if lt is not None and lt != t:
+                    diff = sorted(k for k in set(t) | set(lt) if t.get(k) != lt.get(k))
+                    acc.fail(case, 'trainer.py on the command line and run_trainer() with the same options differ in %r' % diff[:5], 'cli-vs-library')
+                continue
+            if t != ref[1]:
+                diff = sorted(k for k in set(t) | set(ref[1]) if t.get(k) != ref[1].get(k))
+                acc.fail(case, 'trainer.py: variant [%s] of %r trains a ruleset that differs from [%s] in %r' % (name, seq, ref[0], diff[:5]), 'cli-ruleset')
+    acc.sample({'layer': 'cli', 'argv': ['-t', 'train.txt', '-r', 'cli', '-e', 'utf-8', '--coverage', '0.5', '--ngram', '3', '--prefixcount']}, cap=1)
+    tree.rmtree(td)
+
+
+def train_bytes_opts(wd, data, enc, prefix, rule, **opts):
+    ok, base, out, pi = P.train(wd, None, rule=rule, raw_bytes=data, encoding=enc, prefixcount=prefix, **opts)
+    if ok is not True:
+        return None, out
+    t = P.tree_bytes(base)
+    t['config.ini'] = b'\n'.join(l for l in t.get('config.ini', b'').split(b'\n') if not l.startswith(b'number_of_encoding_errors'))
+    return t, out
+
+
 def run_shard(shard, tier, acc):
+    if shard[0] == 'cli':
+        return run_cli_layer(tier, acc)
     if shard[0] == 'seq':
         run_seq(shard, tier, acc)
     elif shard[0] == 'rules':
@@ -281,6 +336,12 @@ def run_shard(shard, tier, acc):
 
 
 def replay(case):
+    if case.get('layer') == 'cli':
+        from ..runner import Acc
+        acc = Acc()
+        run_cli_layer('quick', acc)
+        fs = [f for f in acc.failures if f['case'].get('variant') == case.get('variant') and f['case'].get('base') == case.get('base')]
+        return fs[0]['msg'] if fs else None
     tree.use()
     TFI = tree.imp('lib_trainer.trainer_file_input').TrainerFileInput
     wd = tree.mkdtemp('pcfgmc-c19x-')
